@@ -4,6 +4,7 @@
 // leaks; the fault-free result of each operation is the reference for "completes correctly" and for "usable afterwards".
 #include "netsim.hpp"
 #include "sigmodel.hpp"
+#include "sigmut.hpp"
 #include "seeds.hpp"
 #include "pki.hpp"
 extern "C" {
@@ -30,7 +31,7 @@ struct Op { const char *name; std::function<bool(KSI_CTX *, St &)> setup; std::f
 static std::vector<Op> g_ops; static std::vector<Result> g_ref; static std::vector<uint64_t> g_allocs; static std::vector<bool> g_usable;
 
 // ---- fixed inputs ------------------------------------------------------------------------------------------------------
-static Bytes g_sigA, g_sigB, g_sigRfc, g_sigKey, g_aggrPdu, g_extPdu, g_pubFile, g_signedPubFile, g_userPubFile; static Sig g_modelA; static Sig g_modelB; static Verdict g_vB; static std::string g_pubString;
+static Bytes g_sigMeta; static Bytes g_sigA, g_sigB, g_sigRfc, g_sigKey, g_aggrPdu, g_extPdu, g_pubFile, g_signedPubFile, g_userPubFile; static Sig g_modelA; static Sig g_modelB; static Verdict g_vB; static std::string g_pubString;
 static const std::string kLogin = "anon", kKey = "anon"; static Bytes keyB() { return Bytes(kKey.begin(), kKey.end()); }
 static Sig fixedSig(uint8_t seed, int chains, int cal, int pub, int auth, int rfc, uint64_t salt) {
     uint8_t st = seed; Chooser ch{[&](uint32_t n) { st = (uint8_t)(st * 37 + 11); return n ? st % n : 0u; }, [&]() { st = (uint8_t)(st * 37 + 11); return st; }};
@@ -235,6 +236,22 @@ static void buildCatalogue() {
                       if (again == KSI_OK && got != st.expect) { r.corrupt = true; r.note = "the aggregation at start level 3 failed; repeated on the same object it returned KSI_OK with " + got.substr(0, 24) + ".. instead of the fault-free " + st.expect.substr(0, 24) + ".. (a remembered result of another start level)"; } KSI_DataHash_free(hr); } }
               if (r.code == KSI_OK) r.out = hex(imprintOf(h0)) + "/" + num(l0) + "|" + hex(imprintOf(h3)) + "/" + num(l3); if (r.code == KSI_OK && r.out.substr(r.out.find('|') + 1) != st.expect) { r.corrupt = true; r.note = "root for start level 3 differs from the one computed on a fresh object"; }
               KSI_DataHash_free(h0); KSI_DataHash_free(h3); return r; }}); }
+    // identities (metadata values read through their caching getters) extracted again from a signature whose metadata has been read before: the values cached by the
+    // earlier, successful extraction must stay valid when a later extraction fails half-way, and a further extraction must give the fault-free result
+    g_ops.push_back({"signature-identity-extracted-again", [](KSI_CTX *ctx, St &st) { if (!parseInto(ctx, g_sigMeta, &st.sig)) return false; KSI_HashChainLinkIdentityList *l = nullptr; bool ok = KSI_Signature_getAggregationHashChainIdentity(st.sig, &l) == KSI_OK && KSI_HashChainLinkIdentityList_length(l) >= 2; KSI_HashChainLinkIdentityList_free(l); return ok; },
+        [](KSI_CTX *, St &st) { Result r; KSI_HashChainLinkIdentityList *l = nullptr; r.code = KSI_Signature_getAggregationHashChainIdentity(st.sig, &l);
+            if (r.code == KSI_OK) for (size_t i = 0; i < KSI_HashChainLinkIdentityList_length(l); i++) { KSI_HashChainLinkIdentity *id = nullptr; KSI_HashChainLinkIdentityList_elementAt(l, i, &id); KSI_Utf8String *cl = nullptr, *mc = nullptr; KSI_Integer *sq = nullptr, *tm = nullptr; if (id) { KSI_HashChainLinkIdentity_getClientId(id, &cl); KSI_HashChainLinkIdentity_getMachineId(id, &mc); KSI_HashChainLinkIdentity_getSequenceNr(id, &sq); KSI_HashChainLinkIdentity_getRequestTime(id, &tm); }
+                NoFault nf; r.out += std::string(cl ? KSI_Utf8String_cstr(cl) : "?") + "/" + (mc ? KSI_Utf8String_cstr(mc) : "-") + "/" + (sq ? std::to_string((unsigned long long)KSI_Integer_getUInt64(sq)) : "-") + "/" + (tm ? std::to_string((unsigned long long)KSI_Integer_getUInt64(tm)) : "-") + "|"; }
+            KSI_HashChainLinkIdentityList_free(l); return r; }});
+    // asynchronous request that carries a request hash AND a configuration request (the client splits it into two handles when it is added)
+    g_ops.push_back({"async-add-request-with-configuration-part", none, [](KSI_CTX *ctx, St &) { Result r; resetSim(); attachAggregator(g_srv); KSI_AsyncService *as = nullptr; r.code = KSI_SigningAsyncService_new(ctx, &as); if (r.code == KSI_OK) r.code = KSI_AsyncService_setEndpoint(as, "ksi+tcp://a1.example.test:3001", kLogin.c_str(), kKey.c_str());
+        if (r.code == KSI_OK) r.code = KSI_AsyncService_setOption(as, KSI_ASYNC_OPT_REQUEST_CACHE_SIZE, (void *)(size_t)4);
+        KSI_AggregationReq *rq = nullptr; KSI_DataHash *dh = nullptr; KSI_Config *cf = nullptr; KSI_AsyncHandle *h = nullptr; if (r.code == KSI_OK) r.code = KSI_AggregationReq_new(ctx, &rq); if (r.code == KSI_OK) { dh = dataHash(ctx, 33); if (!dh) r.code = KSI_OUT_OF_MEMORY; }
+        if (r.code == KSI_OK) { r.code = KSI_AggregationReq_setRequestHash(rq, dh); if (r.code == KSI_OK) dh = nullptr; } if (r.code == KSI_OK) r.code = KSI_Config_new(ctx, &cf); if (r.code == KSI_OK) { r.code = KSI_AggregationReq_setConfig(rq, cf); if (r.code == KSI_OK) cf = nullptr; }
+        if (r.code == KSI_OK) { r.code = KSI_AsyncAggregationHandle_new(ctx, rq, &h); if (r.code == KSI_OK) rq = nullptr; } bool added = false; if (r.code == KSI_OK) { r.code = KSI_AsyncService_addRequest(as, h); if (r.code == KSI_OK) { added = true; } }
+        size_t pending = 0; if (as) KSI_AsyncService_getPendingCount(as, &pending); if (r.code == KSI_OK) r.out = "pending=" + num((long long)pending);
+        if (!added) KSI_AsyncHandle_free(h); /* a refused handle stays with the caller */ KSI_AggregationReq_free(rq); KSI_DataHash_free(dh); KSI_Config_free(cf);
+        if (added) { for (int round = 0; round < 6; round++) { KSI_AsyncHandle *out = nullptr; size_t w = 0; KSI_AsyncService_run(as, &out, &w); KSI_AsyncHandle_free(out); } } KSI_AsyncService_free(as); return r; }});
 }
 
 static Result runClean(size_t oi, uint64_t *allocs) {
@@ -252,6 +269,7 @@ void harness_init() {
       uint64_t tb = g_modelB.chains[0].aggrTime, pb = tb + 2000; ChainResult crb = calAggregate(coherentCalLinks(tb, pb, 5), g_vB.aggrRoot); PubRecord pbr; pbr.data.time = pb; pbr.data.hash = crb.hash; recs.push_back(pbr.toTlv(0x703));
       { Sig k = g_modelB; k.auth.certId = Bytes{1, 2, 3, 4}; k.auth.sigType = "1.2.840.113549.1.1.11"; k.auth.sigValue = TestPki::rawSign(pki.s[0].key, k.auth.data.toTlv().enc(), EVP_sha256()); g_sigKey = k.enc(); } // authentication record signed with the listed certificate's key
       static const char m[] = "KSIPUBLF"; Bytes f(m, m + 8); for (auto &r : recs) r.encode(f); Bytes sg = pki.signDetached(pki.s[0], f, {}); Tlv::raw(0x704, sg).encode(f); g_signedPubFile = f; g_userPubFile = f; }
+    { Sig m = fixedSig(13, 2, 1, 1, 0, 0, 5); Link &l0 = m.chains[0].links[0]; l0.kind = SIB_META; l0.sib = metaContent("client-a", "machine-1", true, 300, true, 1500000000000000ULL); if (m.chains.size() > 1) { Link &l1 = m.chains[1].links[0]; l1.kind = SIB_META; l1.sib = metaContent("gateway-b", "", true, 70000, false, 0); } relink(m); g_sigMeta = m.enc(); }
     buildCatalogue();
     for (size_t i = 0; i < g_ops.size(); i++) { uint64_t n1 = 0, n2 = 0; Result r1 = runClean(i, &n1), r2 = runClean(i, &n2); g_ref.push_back(r1); g_allocs.push_back(n1); g_usable.push_back(r1 == r2 && r1.code == KSI_OK && !r1.corrupt && n1 > 0); }
 }
